@@ -179,7 +179,7 @@ func checkSwitchProgramX(k *h.Case, prog *spec.Program, cands []int, pins map[st
 		if full {
 			in.Render = buildLabelModel(prog).renderCmd
 		}
-		vm := &asm.VM{F: f, Sec: sec}
+		vm := &asm.VM{F: f, Sec: sec, UserTargets: userTargetsOf(prog)}
 		for _, sw := range sws {
 			if sw.Auto != nil && !full {
 				continue
@@ -287,6 +287,7 @@ func runC03(ctx *h.Ctx) int {
 		}
 	})
 	ctx.Exhaustive("case lists", int64(len(lists)), fmt.Sprintf("every list of 1..%d entries over {case empty, case body, body+break, break in the middle, break inside nested if, default empty, default body} with at most one default, each in %d contexts (alone, between commands, in while, in do-while, inside an outer switch case, in a condition-less while)", maxLen, nSwitchContexts))
+	rejectGuard(ctx, 0.05)
 	return ctx.Finish(
 		"switch statements: random case lists (<=8 entries, default anywhere, empty/non-empty bodies, break anywhere, nested) inside random scripts, plus the complete enumeration of small case lists in 6 contexts; each run for every case value and one value matching nothing, under 3 base states; command trace and terminal compared with the reference (first matching case, else default wherever written; body-less entry shares the next non-empty body; trailing body-less entries do nothing; no fall-through; break leaves the switch). distinct = distinct case-list signature",
 		ctx.N(200, 2000),
